@@ -1,77 +1,14 @@
-import Mathlib.Analysis.SpecialFunctions.Sqrt
-import Q1t.Proofs.AmpComplex
+import Q1t.Proofs.SimGFComplex
 import Q1t.Proofs.SimResetAll
 /-!
-C02: the intended model.  The complex numbers with `|a|² = a·ā`, `rsqrt w = 1/√w`, `min1 w = min(w, 1)` on real
-weights satisfy `LawfulSim` relative to `nzC w` = "`w` is a positive real"; ℂ is a field, so `LocalWeights ℂ`,
-and the exact norm test satisfies `NonzeroOK`.  Hence `shot_refinement` holds for complex amplitudes at all real
-gate parameters (under `GateSemOK`; for the basis gates without it).  Noncomputable; only used in proofs.
+C02: the intended model.  The complex instance of the simulator amplitudes is the one of
+`Q1t/Proofs/SimGFComplex.lean` (shared with C01): `|a|² = a·ā`, `rsqrt w = 1/√(re w)`,
+`min1 w = min(re w, 1) + i·im w`, `nzC w` = "`w` is a positive real"; `LawfulSim ℂ ℝ nzC` is proved there.
+Here: ℂ is a field, so `LocalWeights ℂ`, and the exact norm test satisfies `NonzeroOK`.
 -/
 noncomputable section
 namespace Q1t.SimComplex
-open Q1t Q1t.Sim Q1t.AmpComplex
-
-/-- `w` is a positive real -/
-def nzC (w : ℂ) : Prop := w.im = 0 ∧ 0 < w.re
-
-open Classical in
-/-- `min1` is `w.min(1.0)` on real weights (the code only ever clamps a real number); on a non-real argument —
-which never occurs — it returns `i`, a value that is neither a possible weight nor has a possible complement -/
-instance simAmpComplex : SimAmp ℂ where
-  normSq a := a * starRingEnd ℂ a
-  rsqrt w := ((1 / Real.sqrt w.re : ℝ) : ℂ)
-  min1 w := if w.im = 0 then ((min w.re 1 : ℝ) : ℂ) else Complex.I
-  weightsOk _ := true
-
-theorem ofReal_of_nz {w : ℂ} (h : nzC w) : w = ((w.re : ℝ) : ℂ) :=
-  Complex.ext rfl (by simp [h.1])
-
-theorem lawfulSim : LawfulSim ℂ ℝ nzC where
-  normSq_eq := fun _ => rfl
-  rsqrt_mul := by
-    intro w h
-    show ((1 / Real.sqrt w.re : ℝ) : ℂ) * ((1 / Real.sqrt w.re : ℝ) : ℂ) * w = 1
-    have hw := ofReal_of_nz h
-    have e : ((1 / Real.sqrt w.re : ℝ) : ℂ) * ((1 / Real.sqrt w.re : ℝ) : ℂ) * w =
-        ((1 / Real.sqrt w.re : ℝ) : ℂ) * ((1 / Real.sqrt w.re : ℝ) : ℂ) * ((w.re : ℝ) : ℂ) := by rw [← hw]
-    rw [e, ← Complex.ofReal_mul, ← Complex.ofReal_mul]
-    have hs : Real.sqrt w.re * Real.sqrt w.re = w.re := Real.mul_self_sqrt h.2.le
-    have hpos : Real.sqrt w.re ≠ 0 := (Real.sqrt_pos.mpr h.2).ne'
-    have : 1 / Real.sqrt w.re * (1 / Real.sqrt w.re) * w.re = 1 := by
-      field_simp
-      nlinarith [hs]
-    rw [this]; rfl
-  rsqrt_real := fun _ _ => Complex.conj_ofReal _
-  min1_nz0 := by
-    intro w h
-    show nzC w
-    by_cases him : w.im = 0
-    · have h' : nzC ((min w.re 1 : ℝ) : ℂ) := by
-        have : SimAmp.min1 w = ((min w.re 1 : ℝ) : ℂ) := by show (if w.im = 0 then _ else _) = _; rw [if_pos him]
-        rwa [this] at h
-      have hpos : 0 < min w.re 1 := by have := h'.2; rwa [Complex.ofReal_re] at this
-      exact ⟨him, lt_of_lt_of_le hpos (min_le_left _ _)⟩
-    · have : SimAmp.min1 w = Complex.I := by show (if w.im = 0 then _ else _) = _; rw [if_neg him]
-      rw [this] at h
-      exact absurd h.1 (by simp)
-  min1_nz1 := by
-    intro w h
-    show nzC (1 - w)
-    by_cases him : w.im = 0
-    · have hm : SimAmp.min1 w = ((min w.re 1 : ℝ) : ℂ) := by show (if w.im = 0 then _ else _) = _; rw [if_pos him]
-      rw [hm] at h
-      have h2 : 0 < 1 - min w.re 1 := by
-        have := h.2
-        rwa [Complex.sub_re, Complex.one_re, Complex.ofReal_re] at this
-      refine ⟨by simp [him], ?_⟩
-      have : w.re < 1 := by
-        by_contra hge
-        rw [min_eq_right (not_lt.mp hge)] at h2
-        exact absurd h2 (by norm_num)
-      simpa using this
-    · have : SimAmp.min1 w = Complex.I := by show (if w.im = 0 then _ else _) = _; rw [if_neg him]
-      rw [this] at h
-      exact absurd h.1 (by simp)
+open Q1t Q1t.Sim Q1t.AmpComplex Q1t.Sim.SimGFComplex
 
 theorem localWeights : LocalWeights ℂ := by
   intro a b ⟨u, hu⟩
